@@ -7,7 +7,7 @@ LEVEL = 'other'
 EXPLANATION = ('LANG rules over the inlined MIR event graph of every source and every Observer impl: '
                'S1 each basic source delivers exactly its documented notification shape (of = next complete, never = nothing, ...); '
                'S2 error() forwards the error as the only downstream event (no item, aggregate or completion with it) and never swallows it; '
-               'S3 complete() delivers next* then exactly one complete; S5 is_finished answers true only for an empty slot or a finished downstream (otherwise a hot source skips the operator at its terminal); S6 the take_last/skip_last queues are first-in-first-out; S7 the take_last queue never holds more than `count` items after next(), for every count >= 0 (interval abstract interpretation of len - count); S8 the next() bodies of take, skip, skip_last, filter, take_while and skip_while agree with their definitions path by path (decision tables over the counter/bound difference, the predicate result and the mode flags; both directions); S9 distinct_until_(key_)changed replace their remembered item by the incoming one exactly when they forward it and never empty it; S10 value-flow definitions by path-sensitive provenance dataflow: last remembers every item and emits the remembered one, scan applies f(acc, item) once, stores and emits the new acc, default_if_empty clears its flag on every item and emits the default iff it is still set, pairwise emits (previous, item) and refills the previous slot, collect adds every item and emits the collection, map/tap/filter_map/on_error_map apply the user function once to the incoming value and forward as defined, contains answers true exactly on equality and false at the end, distinct(_key) forwards iff the key is new and then records it, buffer_with_count releases and empties the buffer exactly when it holds count items (undecidable terms pass); S11 the derived operators are the compositions their documentation states: the operator tree each ObservableExt builder returns (provided methods and constructors inlined) is compared with its definition — first = take(1), element_at(n) = skip(n).take(1), all = map.filter(not).take(1).default_if_empty(true), reduce = scan.last.default_if_empty(initial), count/sum/min/max/average with the arithmetic and the comparison direction of their folding functions, take_while vs take_while_inclusive by their flag (38 builders); S4 next() never sends an error and completes downstream only in the '
+               'S3 complete() delivers next* then exactly one complete; S5 is_finished answers true only for an empty slot or a finished downstream (otherwise a hot source skips the operator at its terminal); S6 the take_last/skip_last queues are first-in-first-out; S7 the take_last queue never holds more than `count` items after next(), for every count >= 0 (interval abstract interpretation of len - count); S8 the next() bodies of take, skip, skip_last, filter, take_while and skip_while agree with their definitions path by path (decision tables over the counter/bound difference, the predicate result and the mode flags; both directions); S9 distinct_until_(key_)changed replace their remembered item by the incoming one exactly when they forward it and never empty it; S10 value-flow definitions by path-sensitive provenance dataflow: last remembers every item and emits the remembered one, scan applies f(acc, item) once, stores and emits the new acc, default_if_empty clears its flag on every item and emits the default iff it is still set, pairwise emits (previous, item) and refills the previous slot, collect adds every item and emits the collection, map/tap/filter_map/on_error_map apply the user function once to the incoming value and forward as defined, contains answers true exactly on equality and false at the end, distinct(_key) forwards iff the key is new and then records it, buffer_with_count releases and empties the buffer exactly when it holds count items (undecidable terms pass); S12 no terminal is dropped silently: in error()/complete() of every Observer impl, a path that does nothing at all (no call, no write, no take) must have found the slot it would act on empty - an early return on any other condition swallows the terminal (tabled: the notifier sides that ignore their own terminal by definition); S11 the derived operators are the compositions their documentation states: the operator tree each ObservableExt builder returns (provided methods and constructors inlined) is compared with its definition — first = take(1), element_at(n) = skip(n).take(1), all = map.filter(not).take(1).default_if_empty(true), reduce = scan.last.default_if_empty(initial), count/sum/min/max/average with the arithmetic and the comparison direction of their folding functions, take_while vs take_while_inclusive by their flag (38 builders); S4 next() never sends an error and completes downstream only in the '
                'tabled early terminators. Decides the termination shape on every path and, for the tabled operators, which items are forwarded and where each emitted value comes from; does not decide what user closures compute.')
 ASSUMPTIONS = ['what user closures compute is not decided; a provenance term the dataflow cannot resolve makes that clause undecided (it passes)']
 TECHNIQUE = 'static analysis: regular-language inclusion of downstream event words, path-sensitive interval and provenance dataflow, and operator-tree matching of builder return values, all over type-checked MIR (custom rustc_private driver)'
@@ -111,13 +111,14 @@ CONTROLS = [
     'S10|<verif_controls::FirstKeeper<O, Item> as Observer>::next',
     'S10|<verif_controls::StaleScan<O, F, A> as Observer>::next',
     'S10|<verif_controls::SwappedPairs<O, Item> as Observer>::next',
+    'S12|<verif_controls::QuietOnFinished<O> as Observer>::complete',
     'S11|verif_controls::ctl_second',
     'S11|verif_controls::ctl_smallest',
 ]
 
 
 def check(cx):
-    return s1(cx) + s234(cx) + s5(cx) + s6(cx) + s7(cx) + s8(cx) + s9(cx) + s10(cx) + s11(cx)
+    return s1(cx) + s234(cx) + s5(cx) + s6(cx) + s7(cx) + s8(cx) + s9(cx) + s10(cx) + s11(cx) + s12(cx)
 
 
 def _src_event(n):
@@ -1149,4 +1150,127 @@ def s11(cx):
             res.append(Finding(ID, 'S11', label, False, '%s is not the composition its documentation states: %s' % (short or path, bad), fn['span']))
         else:
             res.append(Finding(ID, 'S11', label, True, 'operator tree agrees with the definition' + ((' (%d part(s) undecided)' % len(notes)) if notes else ''), fn['span']))
+    return res
+
+
+# ---- S12: a terminal is never dropped silently
+S12_NOOP = {
+    '<ops::skip_until::SkipUntilNotifierObserver as Observer>::error': 'skip_until ignores the notifier\'s own terminal by definition (C04.M3)',
+    '<ops::skip_until::SkipUntilNotifierObserver as Observer>::complete': 'same',
+    '<ops::take_until::TakeUntilNotifierObserver as Observer>::error': 'take_until ignores the notifier\'s own terminal by definition (C04.M3)',
+    '<ops::take_until::TakeUntilNotifierObserver as Observer>::complete': 'same',
+    '<ops::with_latest_from::BObserver as Observer>::complete': 'the secondary input of with_latest_from only feeds values; its completion is not mirrored',
+    '<observable::subscribe_item::ObserverItem as Observer>::error': 'subscribe(|item| ..) has no error callback',
+    '<observable::subscribe_item::ObserverItem as Observer>::complete': 'subscribe(|item| ..) has no completion callback',
+}
+_S12_PURE = ('clone', 'deref', 'deref_mut', 'as_ref', 'as_mut', 'borrow', 'borrow_mut', 'is_none', 'is_some', 'is_empty', 'len', 'is_finished', 'is_closed',
+             'rc_deref', 'rc_deref_mut', 'eq', 'ne', 'drop', 'project', 'new_unchecked', 'get_mut', 'as_deref_mut', 'as_deref', 'into', 'from', 'teardown_size')
+
+
+_S12_MUT = ('push', 'push_back', 'push_front', 'insert', 'extend', 'append', 'clear', 'drain', 'retain', 'remove', 'pop', 'pop_front', 'pop_back', 'swap',
+            'replace', 'store', 'wake', 'wake_by_ref', 'unbounded_send', 'start_send', 'send', 'try_send', 'close_channel', 'close', 'set', 'truncate')
+
+
+def silent_paths(cx, fn):
+    """return states of paths through fn that do nothing at all (no effectful call, no write through an argument) and have not
+    branched on 'the slot / the state of self says there is nothing to do'"""
+    from ..core import explore, ret_states, sw_value, UNSUB_NAMES, SCHEDULE, TAKE
+    from ..expr import access_path, strip
+    _S12_ACT = set(UNSUB_NAMES) | {SUBSCRIBE, SCHEDULE}
+    g = cx.graph(fn['key'])
+
+    def step(st, x, lab):
+        effect, just = st
+        d, v = sw_value(lab)
+        if d is not None:
+            dd = strip(d)
+            if dd[0] == 'discr' and v == 0:
+                root, steps = access_path(dd[1])
+                if root[0] == 'arg' and root[1] == 1:
+                    just = True
+            if dd[0] == 'call' and dd[1].rsplit('::', 1)[-1] in ('is_none',) and v == 1:
+                just = True
+            if dd[0] == 'call' and dd[1].rsplit('::', 1)[-1] in ('is_some',) and v == 0:
+                just = True
+            if dd[0] == 'field':
+                root, steps = access_path(dd)
+                if root[0] == 'arg' and root[1] == 1:
+                    just = True       # a mode / state flag of the object decides (e.g. "the other input already completed")
+        if x['kind'] == 'call':
+            # (an inlined local callee is judged by what happens inside it)
+            name = x['name']
+            tail = name.rsplit('::', 1)[-1]
+            if down_method(x) in ('next', 'error', 'complete') or name in _S12_ACT or name in FN_CALLS or name == '<fnptr>' or name in TAKE:
+                effect = True
+            elif tail in _S12_MUT or tail.startswith('fetch_'):
+                effect = True
+            elif not name.startswith(('std::', 'core::', 'alloc::', 'rc::', 'smallvec::')) and tail not in _S12_PURE:
+                effect = True      # a call into another crate / an unresolved trait method: assume it acts
+        if x['kind'] == 'assign' and x['lhs'][0] != 'local' and x['lhs'][0] != 'discr':
+            root, steps = access_path(x['lhs'])
+            if root[0] == 'arg':
+                effect = True
+        return (effect, just)
+    reached, pred = explore(g, (False, False), step)
+    bad = [k for k in ret_states(g, reached) if not k[1][0] and not k[1][1]]
+    return bad, g, pred
+
+
+def s12(cx):
+    from ..core import witness, interesting_default
+    F = cx.facts
+    res = []
+    n = 0
+    for im in cx.observer_impls():
+        tag = roles.impl_tag(cx, im)
+        if cx.control != ('verif_controls' in tag):
+            continue
+        for meth in ('error', 'complete'):
+            fn = cx.method(im, meth)
+            if fn is None:
+                continue
+            label = cx.label(fn)
+            sl = roles.stable_label(cx, fn)
+            if sl in S12_NOOP:
+                continue
+            n += 1
+            bad, g, pred = silent_paths(cx, fn)
+            res.append(Finding(ID, 'S12', label, not bad,
+                               '%s() has a path that does nothing at all although it has not found its slot empty: the terminal is swallowed there (downstream never terminates / cleanup never runs)' % meth
+                               if bad else 'every path of %s() acts on the terminal or has found the slot empty' % meth,
+                               fn['span'], witness(g, pred, bad[0], interesting_default) if bad else None))
+    if not cx.control and n < 120:
+        res.append(Finding(ID, 'S12', 'floor', False, 'only %d terminal methods analysed, expected >= 120' % n))
+    return res
+
+
+def query_findings(cx, fns, prop, rule, what):
+    """read-only contract of query methods (&self): no exclusive guard, no effect. A query that takes the write guard panics
+    (RefCell) or dead-locks (Mutex) when it is asked from inside a callback that runs under a read guard; a query with an effect
+    changes what it reports on"""
+    from ..core import guard_of, UNSUB_NAMES, SCHEDULE, TAKE
+    res = []
+    act = set(UNSUB_NAMES) | {SUBSCRIBE, SCHEDULE}
+    for fn in fns:
+        g = cx.graph(fn['key'])
+        bad = None
+        for x in g.nodes:
+            gd = guard_of(x)
+            if gd and gd[2] == 'W':
+                bad = (x, 'takes an exclusive (write) guard')
+                break
+            if x['kind'] == 'call':
+                tail = x['name'].rsplit('::', 1)[-1]
+                if down_method(x) in ('next', 'error', 'complete') or x['name'] in act or x['name'] in TAKE or tail in _S12_MUT or tail.startswith('fetch_'):
+                    bad = (x, 'has an effect (%s)' % tail)
+                    break
+            if x['kind'] == 'assign' and x['lhs'][0] not in ('local', 'discr'):
+                from ..expr import access_path
+                root, steps = access_path(x['lhs'])
+                if root[0] == 'arg':
+                    bad = (x, 'writes through self')
+                    break
+        res.append(Finding(prop, rule, cx.label(fn), bad is None,
+                           ('%s %s: asked from inside a callback that already reads the same cell it panics (RefCell) or blocks (Mutex), and it is not a pure observation any more' % (what, bad[1])) if bad else
+                           '%s is a pure read (shared guards only, no effect)' % what, g.loc(bad[0]) if bad else fn['span']))
     return res
